@@ -29,6 +29,7 @@ func init() {
 			ruleCTAgree(c, s)
 			ruleODLoop(c, s)
 			ruleDstFresh(c)
+			ruleALStr(c)
 		})
 
 	register("C13",
@@ -38,6 +39,7 @@ func init() {
 			ruleWASel(c)
 			ruleBTNonNull(c)
 			ruleBTPure(c)
+			ruleDstFresh(c)
 			ruleWAWR(c, func(ct *CodecType) bool { return strings.Contains(ct.Name, "union") }, 3)
 			ruleEFU(c, "", 4)
 			rulePCArg(c, nil, 18, 3)
@@ -97,6 +99,8 @@ func init() {
 			ruleENCSame(c)
 			ruleODClear(c, findReadFile(c.P))
 			ruleDstFresh(c)
+			ruleALBump(c)
+			ruleALStr(c)
 		})
 
 	register("C02",
@@ -116,6 +120,7 @@ func init() {
 			ruleENCSame(c)
 			ruleJS(c)
 			ruleVarStd(c)
+			ruleCPFresh(c, s)
 			ruleBTPtrWrap(c)
 		})
 
